@@ -69,7 +69,17 @@ func c02Scenarios(tier string) []*hist.Scenario {
 				add(f.name, f.init, []string{op}, 1, 2, 2, 1, 0, cfgs[1])
 			}
 		}
+		// changes that carry two operations (garbage made inside one change,
+		// a container created and filled): one writer + the late client
+		for _, op := range multiOps {
+			add("multi", []string{"init.o", "init.a", "init.t", "init.c"}, []string{op}, 1, 2, 2, 1, 0, cfgs[0])
+		}
 		return out
+	}
+	for _, op := range multiOps {
+		for _, ti := range cfgs[:2] {
+			add("multi", []string{"init.o", "init.a", "init.t", "init.c"}, []string{op}, 1, 2, 3, 1, 0, ti)
+		}
 	}
 	for _, f := range coreFamilies() {
 		for _, op := range f.ops {
